@@ -43,6 +43,7 @@ ClausesOf ==
    C11 |-> {"C11_ProbeImmediate", "C11_UnicastReply", "C11_UnicastEcho", "C11_NoFlushInUnicast", "C11_SameSocket", "C11_UnexpectedUnicast",
             "C11_MulticastFormat", "C11_WellFormedReply", "C11_QuRouting"},
    C12 |-> {"C12_NoEarlyOrUnsolicited", "C12_AnsweredAtOnce", "C12_By500", "C12_ProtectedBy1200", "C12_NoDuplicateInBatch"},
+   C12S |-> {"C12_OneSecondAfterAnySighting"},
    C08 |-> {"C08_GoodbyeComplete", "C08_NoResurrection", "C08_AnnouncementComplete"},
    C15 |-> {"C15_NoException", "C15_OversizeIgnored", "C15_InvalidIgnored", "C15_CanaryAdded", "C15_CanaryAnswered"},
    C17 |-> {"C17_Quiet", "C17_GoodbyesBeforeClose", "C17_Idempotent", "C17_NoTimerRaises"},
@@ -59,7 +60,7 @@ NoExp == [on |-> FALSE, canary |-> FALSE, u |-> {}, uopt |-> {}, dst |-> 0, port
 NoProbe == [on |-> FALSE, sid |-> -1, cands |-> <<>>, k |-> 1, r |-> 0, i |-> 0, rename |-> FALSE, exact |-> {}, fail |-> FALSE]
 
 InitState ==
-  [reg |-> [k \in 0..7 |-> NoSvc], seen |-> <<>>, lastDid |-> 0, lastProc |-> -100000, lastQU |-> FALSE,
+  [reg |-> [k \in 0..7 |-> NoSvc], seen |-> <<>>, tx |-> <<>>, lastDid |-> 0, lastProc |-> -100000, lastQU |-> FALSE,
    obl |-> {}, qn |-> 0, slots |-> {}, gone |-> {}, exp |-> NoExp, hold |-> {}, inRecv |-> FALSE,
    lastTcSrc |-> 0, oversize |-> FALSE, invalid |-> FALSE, added |-> {}, closed |-> FALSE, closing |-> FALSE, pr |-> NoProbe, pendReg |-> NoSvc, rejected |-> {}, again |-> <<>>, err |-> ""]
 
@@ -136,12 +137,18 @@ RouteFrom(st, Q, k, acc) ==
                              !.opt = @ \cup O])
 Route(st, Q) == RouteFrom(st, Q, 1, [u |-> {}, now |-> {}, prot |-> {}, agg |-> {}, lax |-> {}, opt |-> {}])
 
+(* s2: the earliest instant at which the record may be multicast again under the strict reading of "a record the host saw
+   multicast less than one second before the query arrived": every response datagram that was delivered to the host counts as
+   a sighting (st.tx), also one that the listener's duplicate guard dropped before it reached the cache.  Only the clause
+   C12_OneSecondAfterAnySighting (pass "C12S") looks at it; all other clauses use the sightings the cache knows (st.seen). *)
+S2(st, Q, r) == IF Q.probe THEN 0 ELSE IF Q.tq - st.tx[r] < 1000 THEN st.tx[r] + 1000 ELSE 0
 NewOblReq(st, Q, rt) ==
-  {[r |-> r, qn |-> st.qn + 1, qt |-> Q.ta, lo |-> Q.ta, hi |-> Q.ta, cls |-> IF Q.probe THEN "probe" ELSE "now", st |-> "open"] : r \in rt.now}
-  \cup {[r |-> r, qn |-> st.qn + 1, qt |-> Q.ta, lo |-> Q.ta + 20, hi |-> Q.ta + 500, cls |-> "agg", st |-> "open"] : r \in rt.agg}
-  \cup {[r |-> r, qn |-> st.qn + 1, qt |-> Q.ta, lo |-> Q.ta, hi |-> Q.ta + 500, cls |-> "agg", st |-> "open"] : r \in rt.lax}
-  \cup {[r |-> r, qn |-> st.qn + 1, qt |-> Q.ta, lo |-> Max(st.seen[r].c + 1000, Q.ta + 20), hi |-> Q.ta + 1200, cls |-> "prot", st |-> "open"]
-        : r \in rt.prot}
+  {[r |-> r, qn |-> st.qn + 1, qt |-> Q.ta, lo |-> Q.ta, hi |-> Q.ta, cls |-> IF Q.probe THEN "probe" ELSE "now", st |-> "open",
+    s2 |-> S2(st, Q, r)] : r \in rt.now}
+  \cup {[r |-> r, qn |-> st.qn + 1, qt |-> Q.ta, lo |-> Q.ta + 20, hi |-> Q.ta + 500, cls |-> "agg", st |-> "open", s2 |-> S2(st, Q, r)] : r \in rt.agg}
+  \cup {[r |-> r, qn |-> st.qn + 1, qt |-> Q.ta, lo |-> Q.ta, hi |-> Q.ta + 500, cls |-> "agg", st |-> "open", s2 |-> S2(st, Q, r)] : r \in rt.lax}
+  \cup {[r |-> r, qn |-> st.qn + 1, qt |-> Q.ta, lo |-> Max(st.seen[r].c + 1000, Q.ta + 20), hi |-> Q.ta + 1200, cls |-> "prot", st |-> "open",
+          s2 |-> S2(st, Q, r)] : r \in rt.prot}
 
 NewObl(st, Q, rt) == {[o EXCEPT !.st = IF o.r \in rt.opt THEN "cov" ELSE "open"] : o \in NewOblReq(st, Q, rt)}
 
@@ -328,8 +335,10 @@ OnRecv(st0, e) ==
   ELSE IF e.bad THEN [st EXCEPT !.lastDid = e.did, !.lastProc = e.t, !.lastQU = FALSE]
   ELSE LET dup == e.did = st.lastDid /\ e.t - 1000 < st.lastProc /\ ~st.lastQU
            hasQU == \E k \in 1..Len(e.qs) : e.qs[k][3] = 1
-       IN IF dup THEN st
-          ELSE LET st1 == [st EXCEPT !.lastDid = e.did, !.lastProc = e.t, !.lastQU = hasQU] IN
+           carried == IF e.resp THEN {Items(e)[k].id : k \in {j \in 1..Len(Items(e)) : Items(e)[j].ttl > 0}} ELSE {}
+           stx == [st EXCEPT !.tx = [i \in Rids |-> IF i \in carried THEN e.t ELSE st.tx[i]]]     \* delivered = seen (strict reading)
+       IN IF dup THEN stx
+          ELSE LET st1 == [stx EXCEPT !.lastDid = e.did, !.lastProc = e.t, !.lastQU = hasQU] IN
             IF e.resp THEN Settle([st1 EXCEPT !.seen = IngestX(Rids, RR, IsPtr, st.seen, Items(e), e.t)], e.t)
             ELSE IF Sids(st) = {} THEN st1
             ELSE IF e.tc
@@ -409,6 +418,8 @@ OnMulticastReply(st, e) ==
   LET an == {NsecCanon(st, r) : r \in RidsOf(e.an)}
       t == e.t
   IN IF Bad(\E r \in an : OCand(st, r, t) = {}, "C12_NoEarlyOrUnsolicited") THEN Fail(st, "C12_NoEarlyOrUnsolicited")
+     ELSE IF Bad(\E r \in an : OCand(st, r, t) # {} /\ \A o \in OCand(st, r, t) : t < o.s2, "C12_OneSecondAfterAnySighting")
+          THEN Fail(st, "C12_OneSecondAfterAnySighting")
      ELSE IF ContentClause(st, e, an, {}) # "" THEN Fail(st, ContentClause(st, e, an, {}))
      ELSE [st EXCEPT !.obl = {IF o.r \in an /\ o.st # "used" /\ o.qt <= t /\ OCand(st, o.r, t) # {}
                               THEN (IF o = OwnObl(st, o.r, t) THEN [o EXCEPT !.st = "used"]
@@ -444,7 +455,7 @@ AfterClose(st, e) ==
     [] OTHER -> st
 
 Step(st0, e, alt) ==
-  IF e.ev = "start" THEN [InitState EXCEPT !.seen = [i \in Rids |-> None]]
+  IF e.ev = "start" THEN [InitState EXCEPT !.seen = [i \in Rids |-> None], !.tx = [i \in Rids |-> -100000]]
   ELSE IF st0.closed THEN AfterClose(st0, e)
   ELSE LET st1 == Pre(st0, e, alt) IN
    IF st1.err # "" THEN st1
